@@ -451,7 +451,11 @@ def _cmp_vals(x, y, m=None):
         return Term("cmp", x, y)
     if isinstance(x, bool):
         x, y = int(x), int(y)
-    if isinstance(x, (int, str)):
+    if isinstance(x, (int, str)) and not isinstance(y, float):
+        return Adt(ORDERING, "Less" if x < y else ("Greater" if x > y else "Equal"))
+    if isinstance(x, float) or isinstance(y, float):
+        if x != x or y != y:
+            raise Unsupported("comparison with NaN")
         return Adt(ORDERING, "Less" if x < y else ("Greater" if x > y else "Equal"))
     if isinstance(x, (tuple, PyVec)):
         xs = x.items if isinstance(x, PyVec) else x
@@ -732,7 +736,7 @@ def _vec_capacity(m, a, c):
     raise Unsupported("capacity after growth is unspecified")
 
 
-@reg("std::vec::Vec::<T, A>::push")
+@reg("std::vec::Vec::<T, A>::push", "std::collections::VecDeque::<T, A>::push_back")
 def _vec_push(m, a, c):
     v = deref(a[0])
     if not isinstance(v, PyVec):
@@ -741,7 +745,26 @@ def _vec_push(m, a, c):
     return ()
 
 
-@reg("std::vec::Vec::<T, A>::pop")
+@reg("std::collections::VecDeque::<T, A>::pop_front")
+def _deque_pop_front(m, a, c):
+    v = deref(a[0])
+    if not isinstance(v, PyVec):
+        raise Unsupported("pop_front on %r" % (v,))
+    if not v.items:
+        return NONE
+    return some(v.items.pop(0))
+
+
+@reg("std::collections::VecDeque::<T, A>::push_front")
+def _deque_push_front(m, a, c):
+    v = deref(a[0])
+    if not isinstance(v, PyVec):
+        raise Unsupported("push_front on %r" % (v,))
+    v.items.insert(0, a[1])
+    return ()
+
+
+@reg("std::vec::Vec::<T, A>::pop", "std::collections::VecDeque::<T, A>::pop_back")
 def _vec_pop(m, a, c):
     v = deref(a[0])
     if not isinstance(v, PyVec):
@@ -751,7 +774,7 @@ def _vec_pop(m, a, c):
     return some(v.items.pop())
 
 
-@reg("std::vec::Vec::<T, A>::len", "core::slice::<impl [T]>::len")
+@reg("std::vec::Vec::<T, A>::len", "core::slice::<impl [T]>::len", "std::collections::VecDeque::<T, A>::len")
 def _vec_len(m, a, c):
     v = deref(a[0])
     if isinstance(v, Term):
@@ -773,7 +796,7 @@ def _vec_split_off(m, a, c):
     return PyVec(tail)
 
 
-@reg("std::vec::Vec::<T, A>::is_empty", "core::slice::<impl [T]>::is_empty")
+@reg("std::vec::Vec::<T, A>::is_empty", "core::slice::<impl [T]>::is_empty", "std::collections::VecDeque::<T, A>::is_empty")
 def _vec_is_empty(m, a, c):
     v = deref(a[0])
     if isinstance(v, Term):
@@ -1100,6 +1123,15 @@ def _iter_adapt(name):
             for x in xs:
                 m.call_value(a[1], [x])
             return ()
+        if name == "try_for_each":
+            for x in xs:
+                r = deref(m.call_value(a[1], [x]))
+                if is_sym(r):
+                    raise Unsupported("try_for_each with symbolic step result")
+                if r.variant in ("None", "Err"):
+                    return r
+            target = m.facts.ty(m.cur_call_ty) if m.cur_call_ty is not None else ""
+            return some(()) if target.startswith("std::option::Option") else ok(())
         if name == "max":
             if not xs:
                 return NONE
@@ -1123,7 +1155,12 @@ def _iter_adapt(name):
                 if is_sym(kx):
                     raise Unsupported("%s with symbolic key" % name)
                 # Rust: max_by_key returns the last maximum, min_by_key the first minimum
-                if bk is None or (name == "max_by_key" and kx >= bk) or (name == "min_by_key" and kx < bk):
+                if bk is not None:
+                    o = _cmp_vals(kx, bk, m)
+                    if isinstance(o, Term):
+                        raise Unsupported("%s with symbolic key order" % name)
+                    o = o.variant
+                if bk is None or (name == "max_by_key" and o != "Less") or (name == "min_by_key" and o == "Less"):
                     best, bk = x, kx
             return some(best)
         if name == "last":
@@ -1169,7 +1206,7 @@ def _iter_adapt(name):
 
 for _nm in ["enumerate", "rev", "map", "filter", "filter_map", "cloned", "copied", "chain", "zip",
             "skip", "take", "collect", "count", "sum", "all", "any", "fold", "for_each", "max", "min",
-            "last", "unzip", "position", "find", "cmp", "partial_cmp", "eq", "ne", "by_ref", "peekable", "fuse", "max_by_key", "min_by_key", "try_fold"]:
+            "last", "unzip", "position", "find", "cmp", "partial_cmp", "eq", "ne", "by_ref", "peekable", "fuse", "max_by_key", "min_by_key", "try_fold", "try_for_each"]:
     TRAIT_TABLE[("std::iter::Iterator", _nm)] = _iter_adapt(_nm)
     SEMANTIC_FIRST.add(("std::iter::Iterator", _nm))
 TRAIT_TABLE[("std::iter::DoubleEndedIterator", "rev")] = _iter_adapt("rev")
@@ -2122,10 +2159,15 @@ class PySet(PyVec):
 
     def __init__(self, items=None):
         out = []
+        m = _CUR_MACHINE[0]
+        user = []
         for x in (items or []):
             x = deref(x)
             if is_sym(x):
                 raise Unsupported("set of symbolic values")
+            if m is not None and isinstance(x, (Adt, tuple)) and _user_ordered(m, x):
+                user.append(x)
+                continue
             if x not in out:
                 out.append(x)
         try:
@@ -2133,6 +2175,8 @@ class PySet(PyVec):
         except TypeError:
             pass
         PyVec.__init__(self, out)
+        for x in user:
+            _set_insert(m, [self, x], {})
 
 
 @reg("std::collections::BTreeSet::<T>::new", "std::collections::HashSet::<T>::new",
@@ -2153,6 +2197,25 @@ def _set_insert(m, a, c):
     s_, x = deref(a[0]), deref(a[1])
     if is_sym(x):
         raise Unsupported("set insert of a symbolic value")
+    if isinstance(x, (Adt, tuple)) and _user_ordered(m, x):
+        # BTreeSet of a crate type: position and membership by the type's own Ord (binary insertion)
+        lo, hi = 0, len(s_.items)
+        try:
+            while lo < hi:
+                mid = (lo + hi) // 2
+                o = _cmp_vals(s_.items[mid], x, m)
+                if isinstance(o, Term):
+                    raise Unsupported("symbolic element order")
+                if o.variant == "Less":
+                    lo = mid + 1
+                else:
+                    hi = mid
+            if lo < len(s_.items) and _cmp_vals(s_.items[lo], x, m).variant == "Equal":
+                return False
+            s_.items.insert(lo, x)
+            return True
+        except Unsupported:
+            pass
     if x in s_.items:
         return False
     s_.items.append(x)
@@ -2290,6 +2353,25 @@ class PyMap(object):
         self.pairs = list(pairs or [])
 
     def find(self, k, m=None):
+        kd = deref(k)
+        if m is not None and isinstance(kd, (Adt, tuple)) and not is_sym(kd) and _user_ordered(m, kd):
+            # BTreeMap look-up: by the key type's own Ord, as the real map does (keys are kept in that order)
+            try:
+                lo, hi = 0, len(self.pairs)
+                while lo < hi:
+                    mid = (lo + hi) // 2
+                    o = _cmp_vals(self.pairs[mid][0], kd, m)
+                    if isinstance(o, Term):
+                        raise Unsupported("symbolic key order")
+                    if o.variant == "Less":
+                        lo = mid + 1
+                    elif o.variant == "Equal":
+                        return mid
+                    else:
+                        hi = mid
+                return -1
+            except Unsupported:
+                pass
         for i, (kk, _) in enumerate(self.pairs):
             if _keys_equal(kk, k, m):
                 return i
@@ -2343,9 +2425,38 @@ def _map_insert(m, a, c):
         old = mp.pairs[i][1]
         mp.pairs[i] = (mp.pairs[i][0], v)
         return some(old)
+    kd = deref(k)
+    if isinstance(kd, (Adt, tuple)) and not is_sym(kd) and _user_ordered(m, kd):
+        # BTreeMap keeps its keys in the order of the key type's own Ord: binary insertion with the evaluated `cmp`
+        lo, hi = 0, len(mp.pairs)
+        try:
+            while lo < hi:
+                mid = (lo + hi) // 2
+                o = _cmp_vals(mp.pairs[mid][0], kd, m)
+                if isinstance(o, Term):
+                    raise Unsupported("symbolic key order")
+                if o.variant == "Less":
+                    lo = mid + 1
+                else:
+                    hi = mid
+            mp.pairs.insert(lo, (k, v))
+            return NONE
+        except Unsupported:
+            pass
     mp.pairs.append((k, v))
     mp.order()
     return NONE
+
+
+def _user_ordered(m, k):
+    """does the key (or a component of it) belong to a crate type with its own Ord impl?"""
+    if isinstance(k, Adt):
+        if k.path in m.facts.adts:
+            return True
+        return any(_user_ordered(m, deref(x)) for x in k.fields.values())
+    if isinstance(k, tuple):
+        return any(_user_ordered(m, deref(x)) for x in k)
+    return False
 
 
 @mapreg("get", "get_mut")
